@@ -1,5 +1,5 @@
 """SubjectRouter / ConcurrentSubjectRouter: RT.1-5 (C06), SH.1-5 (C13), CR.1-4 (C11)."""
-import itertools
+import itertools, re
 from facts import Node, strip_targs, Inconclusive
 from symex import Lin, Unknown, Ref, Closure, Sym, Exec, as_lin
 from evdom import EvDomain, Ev, run_paths, loop_conds, loop_visits
@@ -813,6 +813,13 @@ class RouterAnalysis:
             inst = f'{f.name[-60:]}: takes an exclusive lock on the router\'s lock'
             if len(mine) == 1 and guard_mode(mine[0].d.get('class')) in ('W', 'X'): self.add('CR.2', True, inst, mine[0].shortloc(), key='CR.2|invoker-lock')
             elif mine and all(guard_mode(n.d.get('class')) == 'R' for n in mine): self.add('CR.2', False, inst, mine[0].shortloc(), 'unsubscribe of the concurrent handle only takes the shared lock', key='CR.2|invoker-lock')
+            elif [ev for ev in eng.events if ev[0] == 'acquire' and ev[3][1] == f.name and ev[5] is not None and strip_targs(ev[5][1]).startswith(CSR) and ev[5][4] == ltype]:
+                # the lock is taken further down (a helper that constructs the guard and runs the operation): by what the engine saw acquired
+                aq = [ev for ev in eng.events if ev[0] == 'acquire' and ev[3][1] == f.name and ev[5] is not None and strip_targs(ev[5][1]).startswith(CSR) and ev[5][4] == ltype]
+                modes = {ev[5][3] for ev in aq}
+                if modes <= {'W', 'X'}: self.add('CR.2', True, inst, aq[0][1].shortloc(), key='CR.2|invoker-lock')
+                elif modes == {'R'}: self.add('CR.2', False, inst, aq[0][1].shortloc(), 'unsubscribe of the concurrent handle only takes the shared lock', key='CR.2|invoker-lock')
+                else: self.add('CR.2', None, inst, aq[0][1].shortloc(), f'the lock is taken in modes {sorted(modes)}')
             elif not gs: self.add('CR.2', False, inst, f.shortloc(), 'unsubscribe of the concurrent handle does not take the write lock', key='CR.2|invoker-lock')
             else: self.add('CR.2', None, inst, f.shortloc(), 'the guard taken by unsubscribe() was not recognised as one on the handle\'s lock member')
         c = F.cls(CSR)
@@ -826,7 +833,27 @@ class RouterAnalysis:
             if tok[4] == 'tulz::rwp::Resource' or common.rw_lock_type(F, tok[4]):
                 self.add('CR.1', False, 're-acquisition of m_resource while held', site, f'self-deadlock via {" > ".join(c.split("::")[-1] for c in chain[-3:])}', key=f'CR.1|reacquire|{strip_targs(chain[-1])}')
 
+    def children_model(self):
+        """None if Node keeps its children in a container keyed by the child's name (what the traversal tables describe: find(name) under
+        a string level); otherwise the type found"""
+        c = self.facts.cls(NODE)
+        if c is None: return None
+        for f in c['fields']:
+            if f['name'] == 'm_children' and not re.search(r'\bmap<', f['ctype']): return f['ctype']
+        return None
+
     def run(self, which):
+        cm = self.children_model()
+        if cm is not None:
+            why = f'the children are kept in `{cm[:60]}`, not in a container keyed by the child name: the traversal tables (find(name) under a string level) do not describe this tree'
+            loc = (self.facts.cls(NODE) or {}).get('loc', '')
+            if 'C06' in which:
+                self.instantiations(); self.primitives()
+                for r in ('RT.3', 'RT.5'): self.add(r, None, 'Node: children model', loc, why)
+            if 'C13' in which:
+                for r in ('SH.1', 'SH.2', 'SH.3', 'SH.4'): self.add(r, None, 'Node: children model', loc, why)
+            if 'C11' in which: self.concurrent_rules()
+            return
         if 'C06' in which:
             self.instantiations(); self.notify_skeleton(); self.primitives(); self.writer_reader()
         if 'C13' in which: self.shrink_rules()
